@@ -1,12 +1,12 @@
 """C03 — Failures skip dependents, spare independents, and decide the exit status."""
-from . import executor as E, runtask as R
+from . import executor as E, planner as P, runtask as R
 
 META = {
     "explanation": "Typestate of the launch loop and of the wait step over the typed-exception CFG (EX6/EX7: every path "
                    "from dequeue/wait ends skipped∧processed, launched∧registered, failed∧stored∧processed or aborted∧re-raised), "
                    "the success predicate (EX4/EX5), failure precedence in finish_execution (RT1), launch failures "
-                   "(RT7), wait-status decoding (SGc), the report and exit status (EX9, CLI1) and --stop-early (EX10).",
-    "rules": ["EX4", "EX5", "EX6", "EX7", "RT1", "RT7", "SGc", "EX9", "CLI1", "EX10", "EX1"],
+                   "(RT7), wait-status decoding (SGc), the report and exit status (EX9, CLI1), --stop-early (EX10), and the planner's edge completeness (PL1–PL3, PL10, W1: a dependent can only be skipped if the edge from the failed task exists).",
+    "rules": ["EX4", "EX5", "EX6", "EX7", "RT1", "RT7", "SGc", "EX9", "CLI1", "EX10", "EX1", "PL1", "PL2", "PL3", "PL10", "W1(planner)"],
     "assumptions": ["liveness half ('every other needed task still runs') is covered only through 'no op is dropped' (EX6/EX7) and the enqueue gate",
                     "signal delivery between statements (DESIGN §3.7)"],
     "trusted": ["ast parser", "typed exception summaries (sa/exc.py tables for externals)"],
@@ -26,3 +26,6 @@ def run(A, rep, tier):
     E.rule_ex9(A, rep, X)
     E.rule_cli1(A, rep)
     E.rule_ex10(A, rep, X)
+    # a dependent is skipped only if the edge from the failed task exists: planner edge completeness
+    F = P.rules_planner_links(A, rep)
+    P.rule_w1_planner(A, rep, F)
